@@ -81,17 +81,17 @@ SU_CTOR_SIZED_CONTRACT
 #define SQ_PROPAGATE_D(x) do{ if(sq_thrown){ su_dtor(&(x)); return SQ_RET; } }while(0)
 
 /* WrapperType::apply(target,source): target=source / target+=source / target-=source (ProxyFwd.h:118-149), by wrapper */
+/* every callee replaced by its contract must exist as a symbol even if a changed library no longer calls it (DFCC refuses unknown names) */
+void sq_keep_symbols(void){ struct SU_vector a_,b_; su_assign_copy(&a_,&b_); su_pluseq(&a_,&b_); su_minuseq(&a_,&b_); }
+int g_applied=-1;     /* which compound operation WrapperType::apply really performed: 0 '=', 1 '+=', 2 '-=' (ghost) */
 void su_wrapper_apply(struct SU_vector* target, const struct SU_vector* source)
 {
   if(wmode==0){
-//@BODY file=include/SQuIDS/detail/ProxyFwd.h sig=/static\s+T&\s+apply\s*\(/ nth=0 rules=common
-//@SUB /return\s*\(\s*target\s*=\s*source\s*\)\s*;/su_assign_copy(target,source); return;/ min=1
+//@BODY file=include/SQuIDS/detail/ProxyFwd.h sig=/static\s+T&\s+apply\s*\(/ nth=0 rules=common,wrapapply
   } else if(wmode==1){
-//@BODY file=include/SQuIDS/detail/ProxyFwd.h sig=/static\s+T&\s+apply\s*\(/ nth=1 rules=common
-//@SUB /return\s*\(\s*target\s*\+=\s*source\s*\)\s*;/su_pluseq(target,source); return;/ min=1
+//@BODY file=include/SQuIDS/detail/ProxyFwd.h sig=/static\s+T&\s+apply\s*\(/ nth=1 rules=common,wrapapply
   } else {
-//@BODY file=include/SQuIDS/detail/ProxyFwd.h sig=/static\s+T&\s+apply\s*\(/ nth=2 rules=common
-//@SUB /return\s*\(\s*target\s*-=\s*source\s*\)\s*;/su_minuseq(target,source); return;/ min=1
+//@BODY file=include/SQuIDS/detail/ProxyFwd.h sig=/static\s+T&\s+apply\s*\(/ nth=2 rules=common,wrapapply
   }
 }
 
@@ -111,7 +111,7 @@ void assignProxy(struct SU_vector* self, const struct proxy* proxy)
 __CPROVER_requires(fam<9 && wmode>=0 && wmode<=2 && gflags<8 && sq_thrown==0 && SQ_LEDGER_OK && g_compute_calls==0)
 __CPROVER_requires(__CPROVER_rw_ok(self,sizeof(*self)) && __CPROVER_r_ok(proxy,sizeof(*proxy)) && __CPROVER_rw_ok(proxy->suv1,sizeof(struct SU_vector)) && __CPROVER_rw_ok(proxy->suv2,sizeof(struct SU_vector)))
 __CPROVER_requires(SU_VALID(self) && SU_VALID(proxy->suv1) && SU_VALID(proxy->suv2) && (self->isinit ==> sq_live>0))
-__CPROVER_assigns(*self, ALLOC_FRAME, g_compute_calls, g_compute_target, g_compute_dim, g_compute_wmode,
+__CPROVER_assigns(*self, ALLOC_FRAME, g_compute_calls, g_compute_target, g_compute_dim, g_compute_wmode, g_applied,
                   __CPROVER_object_upto(self->components, self->size*sizeof(double)),
                   proxy->suv1->isinit, proxy->suv2->isinit, proxy->suv1->dim, proxy->suv1->size, proxy->suv1->components, proxy->suv2->dim, proxy->suv2->size, proxy->suv2->components;
                   (proxy->flags&1)!=0: __CPROVER_object_upto(proxy->suv1->components, proxy->suv1->size*sizeof(double));
@@ -128,6 +128,7 @@ __CPROVER_ensures(SU_VALID(self) && SU_VALID(proxy->suv1) && SU_VALID(proxy->suv
 __CPROVER_ensures(sq_thrown==0 ==> (self->dim==__CPROVER_old(proxy->suv1->dim) && self->size==__CPROVER_old(proxy->suv1->size)))
 /* the operation was evaluated exactly once, with the wrapper of this statement form or through a fresh temporary */
 __CPROVER_ensures(sq_thrown==0 ==> (g_compute_calls==1 && g_compute_dim==self->dim && ((g_compute_target==self->components && g_compute_wmode==wmode) || (g_compute_target!=self->components && g_compute_wmode==0))))
+__CPROVER_ensures(sq_thrown==0 && g_compute_target!=self->components ==> g_applied==wmode)     /* C09: a result evaluated into a temporary is combined with the target by THIS statement's operation (=, +=, -=) */
 __CPROVER_ensures(__CPROVER_old(self->isinit_d) ==> (self->isinit_d && !self->isinit && self->components==__CPROVER_old(self->components)))   /* external storage never replaced */
 {
 //@BODY file=include/SQuIDS/SUNalg.h sig=/SU_vector&\s+assignProxy\s*\(/ rules=common,proxy_access,suv_method
